@@ -164,6 +164,47 @@ def random_string(rng, w, col):
     return s
 
 
+def scripted_overflow(d, adapter):
+    """Every run, independent of the seed: a full row printed without line end (the cursor waits past the last column), then each
+    kind of statement that moves or uses the cursor, then a short PRINT - from the top row and from a row in the middle."""
+    d.fresh(adapter)
+    o = d.events[-1]['obs']
+    w, h = o['w'], o['h']
+    follow = [{'op': 'viewprint', 't': 3, 'b': 8}, {'op': 'viewprint', 't': 1, 'b': 1}, {'op': 'viewprint', 't': 0, 'b': 0},
+              {'op': 'locate', 'r': 5, 'c': -1}, {'op': 'locate', 'r': -1, 'c': w}, {'op': 'locate', 'r': -1, 'c': 3},
+              {'op': 'cls'}, {'op': 'print', 's': [], 'nl': True}, {'op': 'print', 's': [13], 'nl': False}]
+    for f in follow:
+        for row in (1, 7):
+            d.do({'op': 'viewprint', 't': 0, 'b': 0})
+            d.do({'op': 'cls'})
+            d.do({'op': 'locate', 'r': row, 'c': 1})
+            d.do({'op': 'print', 's': [65 + (i % 20) for i in range(w)], 'nl': False})
+            d.do(dict(f))
+            d.do({'op': 'print', 's': [120, 121, 122], 'nl': False})
+            d.do({'op': 'print', 's': [49], 'nl': True})
+
+
+def scripted_refused(d, adapter):
+    """Every run: statements that are refused with the cursor on the last row of the window (and elsewhere), each followed by
+    output - the refusal prints its message and must leave nothing else behind (see Refused in TextScreen_Trace)."""
+    d.fresh(adapter)
+    o = d.events[-1]['obs']
+    w, h = o['w'], o['h']
+    last = h - 1
+    for (vp, row, col, bad) in [(None, last, 5, {'op': 'locate', 'r': h, 'c': w + 1}), (None, last, 1, {'op': 'locate', 'r': h, 'c': w + 1}),
+                                ((5, last), last, 7, {'op': 'locate', 'r': h, 'c': 1}), ((5, last), last, 1, {'op': 'locate', 'r': h, 'c': 1}),
+                                (None, 12, 9, {'op': 'locate', 'r': 12, 'c': w + 1}), (None, last, w, {'op': 'locate', 'r': h + 1, 'c': 1}),
+                                ((3, 9), 9, 4, {'op': 'viewprint', 't': 9, 'b': 3}), (None, last, 3, {'op': 'viewprint', 't': 0, 'b': 30})]:
+        d.do({'op': 'viewprint', 't': 0, 'b': 0})
+        d.do({'op': 'cls'})
+        if vp:
+            d.do({'op': 'viewprint', 't': vp[0], 'b': vp[1]})
+        d.do({'op': 'locate', 'r': row, 'c': col})
+        d.do(dict(bad))
+        d.do({'op': 'print', 's': [], 'nl': True})
+        d.do({'op': 'print', 's': [120, 121, 122], 'nl': True})
+
+
 def random_history(d, rng, adapter, nsteps):
     d.fresh(adapter)
     modes = ADAPTER_MODES[adapter]
@@ -172,9 +213,20 @@ def random_history(d, rng, adapter, nsteps):
         o = d.events[-1]['obs']
         w, h = o['w'], o['h']
         k = rng.random()
-        if o['ovf'] and rng.random() < 0.4:
-            # from the overflow position (a character was just printed in the last column): LOCATE to the last column
-            a = {'op': 'locate', 'r': rng.choice([-1, rng.randint(o['top'], o['bot'])]), 'c': w}
+        if o['ovf'] and rng.random() < 0.65:
+            # from the overflow position (a character was just printed in the last column): every kind of statement that moves or
+            # uses the cursor (the round-1 seeded change of C36 kept the overflow flag across VIEW PRINT)
+            t = rng.choice([1, 2, rng.randint(1, 23)])
+            a = rng.choice([{'op': 'locate', 'r': rng.choice([-1, rng.randint(o['top'], o['bot'])]), 'c': w},
+                            {'op': 'viewprint', 't': t, 'b': rng.choice([t, min(24, t + 3), 24 if not tandy else h - 1])},
+                            {'op': 'viewprint', 't': t, 'b': rng.choice([t, min(24, t + 3), 24 if not tandy else h - 1])},
+                            {'op': 'viewprint', 't': 0, 'b': 0},
+                            {'op': 'print', 's': [65, 66, 67], 'nl': False},
+                            {'op': 'print', 's': [], 'nl': True},
+                            {'op': 'locate', 'r': rng.randint(o['top'], o['bot']), 'c': -1},
+                            {'op': 'cls'}])
+            if a['op'] == 'viewprint' and a['b'] and tandy and a['b'] >= h:
+                a['b'] = h - 1
         elif o['bra'] and o['row'] == h and not o['view'] and rng.random() < 0.5:
             # the cursor was put on the bottom row: a one-row window directly above it, then a line end
             d.do({'op': 'viewprint', 't': h - 1, 'b': h - 1})
@@ -251,6 +303,9 @@ def run(ctx):
     rng = ctx.rng
     nhist = ctx.pick(24, 600)
     adapters = list(ADAPTER_MODES)
+    for ad in adapters[:2]:
+        scripted_overflow(d, ad)
+        scripted_refused(d, ad)
     for hno in range(nhist):
         random_history(d, rng, adapters[hno % len(adapters)], rng.randint(20, 60))
     d.close()
